@@ -281,6 +281,9 @@ func genTable(rng *rand.Rand, name string, idxNames func(int) []string) Tbl {
 	for _, n := range pickDistinct(rng, namePool, rng.IntN(3)) {
 		t.Chks = append(t.Chks, Chk{N: n, X: fmt.Sprintf("%s IS NOT NULL OR 1", t.Cols[rng.IntN(len(t.Cols))].N)})
 	}
+	if rng.IntN(3) == 0 { // one check without a name: `*` matches the empty name, `?` and literals do not
+		t.Chks = append(t.Chks, Chk{N: "", X: fmt.Sprintf("%s IS NOT NULL OR 2", t.Cols[0].N)})
+	}
 	return t
 }
 
@@ -495,12 +498,21 @@ func sqliteFixtures(r Rlm, i int) (Rlm, [][]string, [][]string) {
 	t0.Cols = append(t0.Cols, Col{N: "fx", T: "int", Null: true}, Col{N: "legacy", T: "txt", Null: true})
 	t0.Idx = append(t0.Idx, Idx{N: "fx_i", Cols: []string{"fx"}}, Idx{N: "fx_ia", Cols: []string{t0.Cols[0].N, "fx"}})
 	t0.FKs = append(t0.FKs, FK{N: "fx_f", Cols: []string{"fx"}, RefT: t0.N, RefCols: []string{t0.Cols[0].N}})
+	unnamed := false
+	for _, k := range t0.Chks {
+		unnamed = unnamed || k.N == ""
+	}
+	if !unnamed {
+		t0.Chks = append(t0.Chks, Chk{N: "", X: "fx IS NULL OR fx > 0"})
+	}
 	if i%4 == 0 && !hasT("legacy") {
 		s.Tbls = append(s.Tbls, Tbl{N: "legacy", Cols: []Col{{N: "id", T: "int"}, {N: "fx", T: "int", Null: true}}})
 	}
 	n := t0.N
-	schemaSets := [][]string{{"main." + n}, {"main.*"}, {"main.legacy"}, {n + ".fx"}, {"*.fx"}, {n + ".fx[type=column|index]"}, {n + ".f?", n + ".fx_i[type=fk]"}}
-	realmSets := [][]string{{"main.main." + n}, {"main.main.*"}, {"main.main.legacy"}, {"main." + n + ".fx"}, {"main.*.fx"}, {"*." + n + ".fx[type=column|fk]"}, {"main.legacy"}}
+	schemaSets := [][]string{{"main." + n}, {"main.*"}, {"main.legacy"}, {n + ".fx"}, {"*.fx"}, {n + ".fx[type=column|index]"}, {n + ".f?", n + ".fx_i[type=fk]"},
+		{n + ".*"}, {"*.*"}, {"*.*[type=check]"}, {n + ".*[type=column|check]"}, {n + ".?*[type=check]"}}
+	realmSets := [][]string{{"main.main." + n}, {"main.main.*"}, {"main.main.legacy"}, {"main." + n + ".fx"}, {"main.*.fx"}, {"*." + n + ".fx[type=column|fk]"}, {"main.legacy"},
+		{"main." + n + ".*"}, {"*.*.*[type=check]"}, {"main." + n + ".*[type=check|index]"}}
 	return r, schemaSets, realmSets
 }
 
